@@ -25,7 +25,7 @@
     22   [same_structure_b] is false although no clause 10-17/21 fired (cannot happen; completeness guard) *)
 From Coq Require Import List NArith ZArith Bool Arith.
 Import ListNotations.
-Require Import V.Lib.RunCases V.C26.Serde V.C26.Decide V.C26.Compare.
+Require Export V.Lib.RunCases V.C26.Serde V.C26.Decide V.C26.Compare.
 Open Scope N_scope.
 
 Inductive case :=
